@@ -77,10 +77,12 @@ static void cov_compare(void) {
     CHECK(r[0] == 1, "every rule of the grammar has an entry in the result map (visit<>)");
     CHECK(r[1] == r[2] + r[3] + r[4], "rule entry: start == success + failure + unwind");
     for (unsigned k = 0; k < 6; ++k) CHECK(r[1 + k] == cov_exp_rule[i * 6 + k], "rule counter equals the number of corresponding hook events of the reference protocol");
-    CHECK(cov_meta[3 + i] == cov_nkids[i], "a rule entry has exactly one branch entry per distinct direct sub-rule (subs_t)");
+    u64 ndyn = 0;
+    for (unsigned j = 0; j < COV_NR; ++j) if (cov_dyn[i * COV_NR + j] && cov_exp_br[(i * COV_NR + j) * 6 + C_RAISE] > 0) ndyn++;
+    CHECK(cov_meta[3 + i] == cov_nkids[i] + ndyn, "a rule entry has exactly one branch entry per distinct direct sub-rule (subs_t), plus the rule blamed by a raise< T > that was reached");
     for (unsigned j = 0; j < COV_NR; ++j) {
       const u64 *b = cov_br + 7 * (i * COV_NR + j);
-      CHECK(b[0] == (cov_kid[i * COV_NR + j] ? 1 : 0), "branch entries exist exactly for the direct sub-rules");
+      CHECK(b[0] == ((cov_kid[i * COV_NR + j] || (cov_dyn[i * COV_NR + j] && cov_exp_br[(i * COV_NR + j) * 6 + C_RAISE] > 0)) ? 1 : 0), "branch entries exist exactly for the direct sub-rules (and for the rule blamed by a raise< T > that was reached)");
       CHECK(b[1] == b[2] + b[3] + b[4], "branch entry: start == success + failure + unwind");
       for (unsigned k = 0; k < 6; ++k) CHECK(b[1 + k] == cov_exp_br[(i * COV_NR + j) * 6 + k], "branch counter equals the number of corresponding hook events of the reference protocol under that parent");
     }
